@@ -287,6 +287,32 @@ def gen(ctx):
                       "tags": ["dirty", "earlier=%d" % n_earlier, "junk=%d" % len(junk), "fmt=" + obs["fmt"],
                                "prefix-layout=" + ("none" if not any(obs["prefixes"]) else "all" if all(obs["prefixes"]) else "mixed")]
                               + ["end=" + (r["end"] if isinstance(r["end"], str) else r["end"][0]) for r in runs]})
+    # ---- every layout of collection prefixes (2 collections: all 9; 3 collections: a sample), small tables, with an old
+    #      result file under a name the run writes
+    rng = ctx.sub("layouts")
+    import itertools
+    lay2 = list(itertools.product([None, "coll0", "coll1"], repeat=2))
+    lay3 = list(itertools.product([None, "coll0", "coll1"], repeat=3))
+    rng.shuffle(lay3)
+    for layout in lay2 + lay3[: (27 if ctx.thorough else 7)]:
+        obs = _gen_run(rng, 8, False, observed=True)
+        while len(obs["files"]) < len(layout):
+            extra = _gen_run(rng, 8, False, observed=True)
+            j = len(obs["files"])
+            f = brewlib.gen_file(rng, rng.randint(3, 10), 2, file_idx=80 + j, levels=obs["levels"])
+            obs["files"].append(f)
+            obs["scores"].append([float(v) for v in rng.sample(range(-20, 60), len(f["targets"]))])
+        obs["files"] = obs["files"][: len(layout)]
+        obs["scores"] = obs["scores"][: len(layout)]
+        for j, f in enumerate(obs["files"]):
+            # distinct PSM ids per collection
+            f["data"]["SpecId"] = ["f%d_psm%d" % (80 + j, i) for i in range(len(f["targets"]))]
+            f["data"]["rid"] = [(80 + j) * 100000 + i for i in range(len(f["targets"]))]
+        obs["prefixes"] = list(layout)
+        obs["fmt"] = "tsv"
+        junk = [{"kind": "own-result", "index": rng.randint(0, 50), "pfx": None, "seed": rng.randint(0, 10 ** 6)} for _ in range(2)]
+        cases.append({"fn": "dirty", "runs": [], "observed": obs, "junk": junk,
+                      "tags": ["dirty", "layout-sweep", "layout=" + "/".join(str(x) for x in layout)]})
     # ---- kill points of one run, every k
     rng = ctx.sub("crash")
     for k in range(10 if ctx.thorough else 3):
